@@ -491,7 +491,30 @@ class Translator:
             ss = [single(v) for v in test.values]
             if all(x and x[0] == "some" for x in ss):
                 return "some", [x[1] for x in ss]
+            if all(ss):
+                return "mixed", ss          # conjunction of `is None` and `is not None` tests
         return None
+
+    def match_mixed(self, tests, env, then_fn, else_text):
+        """if x is None and y is not None ...: THEN else ELSE  (ELSE text is duplicated in every failing arm)"""
+        env2 = dict(env)
+        scrut = {}
+        for kind, nm in tests:
+            scrut[nm], ty0 = self.ex(ast.parse(nm, mode="eval").body, env)
+            if kind == "some":
+                env2[nm] = ty0[1]
+        body = then_fn(env2)
+        # unwrapped values get fresh binder names so that the (duplicated) else-text still sees the option-typed names
+        for kind, nm in tests:
+            if kind == "some":
+                body = f"let {self.var(nm)} := {self.var(nm)}_u in {body}"
+        for kind, nm in reversed(tests):
+            v = self.var(nm)
+            if kind == "some":
+                body = f"match {scrut[nm]} with Some {v}_u => {body} | None => {else_text} end"
+            else:
+                body = f"match {scrut[nm]} with None => {body} | Some _ => {else_text} end"
+        return "(" + body + ")"
 
     def match_none(self, names, env, none_branch, some_branch_fn):
         """match on option-typed locals: if ANY is None -> none_branch text, else some_branch_fn(env')"""
@@ -574,6 +597,19 @@ class Translator:
             if any(t != NUM for _, t in args):
                 fail(n, f"{name} on non-number")
             return "(" + simple[name][0] + " " + " ".join(a for a, _ in args) + ")", NUM
+        if name == "sorted" and len(n.args) == 1 and not n.keywords and isinstance(n.args[0], ast.Tuple) \
+                and len(n.args[0].elts) == 2:
+            (a, at), (b, bt) = [self.ex(e, env) for e in n.args[0].elts]
+            if at != NUM or bt != NUM:
+                fail(n, "sorted of non-numbers")
+            return f"((nmin {a} {b}), (nmax {a} {b}))", tup(NUM, NUM)
+        if name == "scipy.optimize.brentq":
+            if len(n.args) != 3 or [k.arg for k in n.keywords] != ["maxiter"] or ast.unparse(n.keywords[0].value) != "MAX_ITER":
+                fail(n, "brentq call shape")
+            args = [self.ex(a, env) for a in n.args]
+            if [t for _, t in args] != [fun(NUM, NUM), NUM, NUM]:
+                fail(n, "brentq argument types")
+            return f"(solver {args[0][0]} {args[1][0]} {args[2][0]})", NUM
         if name == "int" and len(n.args) == 1 and not n.keywords:
             a, at = self.ex(n.args[0], env)
             if at == BOOL:
@@ -792,6 +828,9 @@ class Translator:
             nt = self.none_test(s.test, env)
             if self.always_returns(s.body):
                 # if c: ...return ; rest
+                if nt and nt[0] == "mixed":
+                    els = self.block(list(s.orelse) + rest, env, ret_ty, k)
+                    return self.match_mixed(nt[1], env, lambda e: self.block(s.body, e, ret_ty, k), els)
                 if nt and nt[0] == "none":
                     a = self.block(s.body, env, ret_ty, k)
                     return self.match_none(nt[1], env, a,
@@ -811,10 +850,12 @@ class Translator:
             names_a = self.assigned(s.body)
             names_b = self.assigned(s.orelse)
             def_a, def_b = self.definitely(s.body), self.definitely(s.orelse)
-            names = [x for x in names_a + names_b if (x in def_a and x in def_b) or x in env]
-            names = list(dict.fromkeys(names))
             used_later = self.names_used(rest)
-            names = [x for x in names if x in used_later or True]
+            # a name bound on one path only is Python's UnboundLocalError on the other: the junk value (`raise`)
+            half = [x for x in names_a + names_b if x not in env and not (x in def_a and x in def_b)
+                    and (x in def_a or x in def_b) and x in used_later and self.spec.get("allow_half_defined")]
+            names = [x for x in names_a + names_b if (x in def_a and x in def_b) or x in env or x in half]
+            names = list(dict.fromkeys(names))
             if not names:
                 fail(s, "conditional without effect")
             # two passes: first to learn the branch types
@@ -825,12 +866,15 @@ class Translator:
 
                 def kk(e):
                     for x in names:
-                        types[x] = e[x]
-                    return "(" + ", ".join(self.var(x) for x in names) + ")" if len(names) > 1 else self.var(names[0])
+                        if x in e:
+                            types[x] = e[x]
+                    return "tt"
                 txt = self.block(branch, benv, ret_ty, kk)
                 return txt, types
 
             def with_cond(fn_a, fn_b):
+                if nt and nt[0] == "mixed":
+                    return self.match_mixed(nt[1], env, fn_a, fn_b(env))
                 if nt:
                     kind, nms = nt
                     if kind == "none":
@@ -842,19 +886,28 @@ class Translator:
                 return f"(if {c} then {fn_a(env)} else {fn_b(env)})"
             # learn types
             env_some = dict(env)
-            if nt:
+            if nt and nt[0] == "mixed":
+                for kind_, nm in nt[1]:
+                    if kind_ == "some":
+                        env_some[nm] = self.ex(ast.parse(nm, mode="eval").body, env)[1][1]
+            elif nt:
                 for nm in nt[1]:
                     env_some[nm] = self.ex(ast.parse(nm, mode="eval").body, env)[1][1]
-            env_a = env_some if (nt and nt[0] == "some") else env
+            env_a = env_some if (nt and nt[0] in ("some", "mixed")) else env
             env_b = env_some if (nt and nt[0] == "none") else env
             _, ta = run(s.body, env_a)
             _, tb = run(s.orelse, env_b)
-            jt = {x: join(ta[x], tb[x]) for x in names}
+            jt = {x: (join(ta[x], tb[x]) if x in ta and x in tb else ta.get(x, tb.get(x))) for x in names}
+
+            def junk(ty):
+                if isinstance(ty, tuple) and ty[0] == "fun":
+                    return f"(fun _ : {coq_ty(ty[1])} => {self.raise_text(ty[2])})"
+                return self.raise_text(ty)
 
             def final(branch):
                 def f(benv):
                     def kk(e):
-                        parts = [coerce(self.var(x), e[x], jt[x]) for x in names]
+                        parts = [coerce(self.var(x), e[x], jt[x]) if x in e else junk(jt[x]) for x in names]
                         return "(" + ", ".join(parts) + ")" if len(parts) > 1 else parts[0]
                     return self.block(branch, benv, ret_ty, kk)
                 return f
